@@ -161,8 +161,16 @@ func (x *Exec) callCommon(fr *frame, s *State, c *ssa.CallCommon, fnv Value, arg
 		// a call through a local function variable may have an assumed contract ("localfn <name>")
 		if u, ok := c.Value.(*ssa.UnOp); ok && u.Op == token.MUL {
 			if a, ok := u.X.(*ssa.Alloc); ok && a.Comment != "" {
+				// function-qualified key first ("localfn <function>.<name>"), then the bare local name
 				key := "localfn " + a.Comment
-				x.atCallCheck(fr, s, key, args)
+				if a.Parent() != nil {
+					qk := "localfn " + x.E.fnKey(a.Parent()) + "." + a.Comment
+					x.atCallCheck(fr, s, qk, args)
+					if x.E.contractByKey(qk) != nil {
+						key = qk
+					}
+				}
+				x.atCallCheck(fr, s, "localfn "+a.Comment, args)
 				if ct := x.E.contractByKey(key); ct != nil {
 					ct.Used = true
 					var names []string
@@ -219,6 +227,9 @@ func (x *Exec) callFunction(fr *frame, s *State, callee *ssa.Function, args []Va
 		return res
 	}
 	ct := x.E.contractFor(callee)
+	if ct != nil && ct.Rec {
+		return []Value{x.recCall(s, callee, args)}
+	}
 	isLocalClosure := callee.Parent() != nil
 	if ct != nil && !ct.Inline && !(ct.Pure && len(ct.Ensures) == 0) {
 		ct.Used = true
